@@ -45,19 +45,24 @@ func cloneRequest(req *http.Request) *http.Request {
 // withConditionalHeaders sets the conditional headers on the request based on the
 // stored response headers as specified in RFC 9111 §4.3.1.
 func withConditionalHeaders(req *http.Request, storedHdr http.Header) *http.Request {
-	var req2 *http.Request
-	if etag := storedHdr.Get("ETag"); etag != "" {
-		req2 = cloneRequest(req)
+	etag, lastModified := storedHdr.Get("ETag"), storedHdr.Get("Last-Modified")
+	clientConditional := req.Header.Get("If-None-Match") != "" || req.Header.Get("If-Modified-Since") != ""
+	if etag == "" && lastModified == "" && !clientConditional {
+		return req
+	}
+	// The validation request asks the origin about the stored response. A
+	// precondition the client supplied is about a copy the client holds: if it
+	// travelled along, a 304 answering it would be taken for a validation of
+	// the stored response (RFC 9111 §4.3.1, §4.3.4). Without a stored validator
+	// the request goes out unconditional.
+	req2 := cloneRequest(req)
+	req2.Header.Del("If-None-Match")
+	req2.Header.Del("If-Modified-Since")
+	if etag != "" {
 		req2.Header.Set("If-None-Match", etag)
 	}
-	if lastModified := storedHdr.Get("Last-Modified"); lastModified != "" {
-		if req2 == nil {
-			req2 = cloneRequest(req)
-		}
+	if lastModified != "" {
 		req2.Header.Set("If-Modified-Since", lastModified)
 	}
-	if req2 != nil {
-		req = req2
-	}
-	return req
+	return req2
 }
